@@ -32,6 +32,7 @@ SHARED = {
     "GenRot": ["C04", "C15", "C19"],
     "GenEuler": ["C01", "C02", "C07"],
     "GenChain": ["C01", "C07"],
+    "Footprint": ["C10", "C09", "C17"],
 }
 
 
